@@ -747,6 +747,8 @@ impl LevelFilter {
         // using an AcqRel swap ensures an ordered relationship of writes to the
         // max level.
         MAX_LEVEL.swap(val, Ordering::AcqRel);
+        #[cfg(all(tokio_rs_tracing_verif, feature = "std"))]
+        crate::verif::point("level.set_max.published");
     }
 }
 
